@@ -13,8 +13,8 @@ RULE = ('family = one generated pipeline (source, 0-3 upstream stages, one prefe
         'switch; distinct = distinct (pipeline, schedule signature).')
 PROBES = ['items_refused', 'later_task_finished_first']
 BUDGET = {
-    'quick': {'families': 1500, 'wall_cap': 240, 'shrink_s': 15},
-    'thorough': {'families': 40000, 'wall_cap': 3000, 'shrink_s': 40},
+    'quick': {'families': 6000, 'wall_cap': 420, 'shrink_s': 15},
+    'thorough': {'families': 60000, 'wall_cap': 5400, 'shrink_s': 40},
 }
 
 
